@@ -19,4 +19,15 @@ CHECKS['C02'] = {
     'assumptions': ['one outstanding wait per timer'],
 }
 
+
+CHECKS['C03'] = {
+    'jobs': {'quick': [J('c03_timers.cpp', ['K=3', 'NT=2'], wall=280, markers=(1, 2, 3))],
+             'thorough': [J('c03_timers.cpp', ['K=4', 'NT=2'], wall=1700, markers=(1, 2, 3)), J('c03_timers.cpp', ['K=3', 'NT=3'], wall=600, markers=(1, 2, 3))]},
+    'bounds': {'quick': 'sequences of K=3 ops over 2 timers from {expires_at(k*u), expires_after(k*u), async_wait, cancel, cancel_one, destroy+recreate}, '
+                        'k in {-1,0,1,2}, u symbolic in [1,1e9] ns; ops issued all outside run() or the first outside and the rest one per completion handler',
+               'thorough': 'K=4 over 2 timers and K=3 over 3 timers'},
+    'outside': ['more than one outstanding wait per timer (unsupported by the API, TODO in the source)', 'moved timers', 'longer sequences'],
+    'assumptions': ['one outstanding wait per timer', 'order between a wait that was already due when started and other ready handlers is left open by the property and not checked'],
+}
+
 NOT_APPLICABLE = {}
